@@ -331,6 +331,8 @@ where
     /// use [`LoRa::prepare_for_rx`].
     pub async fn rx_switch_channel(&mut self, frequency_in_hz: u32) -> Result<(), RadioError> {
         if let RadioMode::Receive(listen_mode) = self.radio_mode {
+            // a duty-cycled reception may be in its sleep phase: wake the chip first
+            self.radio_kind.ensure_ready(self.radio_mode).await?;
             self.radio_kind.set_standby().await?;
             self.radio_kind.set_channel(frequency_in_hz).await?;
             match self.radio_kind.do_rx(listen_mode).await {
@@ -346,6 +348,8 @@ where
     /// Call [`LoRa::complete_rx`] to wait and handle result.
     pub async fn start_rx(&mut self) -> Result<(), RadioError> {
         if let RadioMode::Receive(listen_mode) = self.radio_mode {
+            // a duty-cycled reception started earlier may be in its sleep phase: wake the chip first
+            self.radio_kind.ensure_ready(self.radio_mode).await?;
             match self.radio_kind.do_rx(listen_mode).await {
                 Ok(()) => Ok(()),
                 Err(err) => Err(self.abort_to_standby(err).await),
